@@ -261,7 +261,15 @@ func (p *parser) parseVectorAggregationExpr() (e *VectorAggregationExpr, err err
 			return err
 		}
 
+		// A leading number is the parameter (as in topk(3, ...)) only if a comma
+		// follows it; otherwise it starts the operand: sum(100 * rate(...)).
+		isParam := false
 		if t := p.peek(); t.Type == lexer.Number {
+			p.next()
+			isParam = p.peek().Type == lexer.Comma
+			p.unread()
+		}
+		if isParam {
 			param, err := p.parseInt()
 			if err != nil {
 				return err
